@@ -231,6 +231,10 @@ type c12Log struct {
 	resolutions *ContractResolutions
 	commitSet   *CommitSet
 	inserted    []ContractResolver
+	// bolt, when set, is a REAL boltArbitratorLog: the confirmed commit set is
+	// written / read through the real InsertConfirmedCommitSet /
+	// FetchConfirmedCommitSet (encodeCommitSet / decodeCommitSet, bucket layout).
+	bolt *boltArbitratorLog
 }
 
 var _ ArbitratorLog = (*c12Log)(nil)
@@ -306,12 +310,18 @@ func (b *c12Log) FetchContractResolutions() (*ContractResolutions, error) {
 }
 func (b *c12Log) FetchChainActions() (ChainActionMap, error) { return nil, nil }
 func (b *c12Log) InsertConfirmedCommitSet(c *CommitSet) error {
+	if b.bolt != nil {
+		return b.bolt.InsertConfirmedCommitSet(c)
+	}
 	b.mu.Lock()
 	b.commitSet = c
 	b.mu.Unlock()
 	return nil
 }
-func (b *c12Log) FetchConfirmedCommitSet(kvdb.RTx) (*CommitSet, error) {
+func (b *c12Log) FetchConfirmedCommitSet(tx kvdb.RTx) (*CommitSet, error) {
+	if b.bolt != nil {
+		return b.bolt.FetchConfirmedCommitSet(tx)
+	}
 	b.mu.Lock()
 	defer b.mu.Unlock()
 	if b.commitSet == nil {
@@ -355,6 +365,16 @@ type c12Arb struct {
 	log   *c12Log
 	clk   *c12Clock
 	grace time.Duration
+	fcErr error
+}
+
+// c12Pending describes the arbitrator of a channel that is already marked
+// closed in the database: the log of the previous incarnation, and what
+// ChainArbitrator copies from the channel close summary into the config.
+type c12Pending struct {
+	lg        *c12Log
+	closeType channeldb.ClosureType
+	height    uint32
 }
 
 // c12NewArb builds the arbitrator. boot == nil: the package's test constructor
@@ -364,8 +384,18 @@ type c12Arb struct {
 // (boot[s] = HTLCs of set s as loaded from the channel's commitments; the
 // pending set only when bootP).
 func c12NewArb(t *testing.T, c *c12Case, fcErr error, boot *[3][]channeldb.HTLC, bootP bool) *c12Arb {
+	return c12NewArbP(t, c, fcErr, boot, bootP, nil)
+}
+
+func c12NewArbP(t *testing.T, c *c12Case, fcErr error, boot *[3][]channeldb.HTLC, bootP bool,
+	pend *c12Pending) *c12Arb {
+
 	obs := &c12Obs{}
 	lg := &c12Log{obs: obs, state: StateDefault}
+	if pend != nil {
+		lg = pend.lg
+		lg.obs = obs
+	}
 	ctx, err := createTestChannelArbitrator(t, lg)
 	if err != nil {
 		t.Fatalf("createTestChannelArbitrator: %v", err)
@@ -425,6 +455,11 @@ func c12NewArb(t *testing.T, c *c12Case, fcErr error, boot *[3][]channeldb.HTLC,
 		obs.finals = append(obs.finals, s)
 		return nil
 	}
+	if pend != nil {
+		arb.cfg.IsPendingClose = true
+		arb.cfg.CloseType = pend.closeType
+		arb.cfg.ClosingHeight = pend.height
+	}
 	if boot != nil {
 		htlcSets := make(map[HtlcSetKey]htlcSet)
 		htlcSets[LocalHtlcSet] = newHtlcSet(boot[c12L])
@@ -435,17 +470,21 @@ func c12NewArb(t *testing.T, c *c12Case, fcErr error, boot *[3][]channeldb.HTLC,
 		arb = NewChannelArbitrator(arb.cfg, htlcSets, lg)
 		ctx.chanArb = arb
 	}
-	return &c12Arb{ctx: ctx, arb: arb, obs: obs, log: lg, clk: clk, grace: 20 * time.Second}
+	return &c12Arb{ctx: ctx, arb: arb, obs: obs, log: lg, clk: clk, grace: 20 * time.Second, fcErr: fcErr}
 }
 
 // setUptime makes `Clock.Now() - startTimestamp` exceed the grace period iff
 // past is true (boundary values: exactly the period, and one nanosecond more).
 func (a *c12Arb) setUptime(past bool, r *rand.Rand) {
+	a.setUptimeK(past, r.Intn(3))
+}
+
+func (a *c12Arb) setUptimeK(past bool, k int) {
 	var up time.Duration
 	if past {
-		up = a.grace + []time.Duration{1, time.Second, 100 * a.grace}[r.Intn(3)]
+		up = a.grace + []time.Duration{1, time.Second, 100 * a.grace}[k]
 	} else {
-		up = []time.Duration{0, a.grace - 1, a.grace}[r.Intn(3)]
+		up = []time.Duration{0, a.grace - 1, a.grace}[k]
 	}
 	a.clk.mu.Lock()
 	a.clk.up = up
@@ -566,6 +605,11 @@ var c12Triggers = []struct {
 
 type c12 struct {
 	forceBoot string
+	// forceReboot: 1 = the close of the next arb case is a restart of a
+	// pending-close channel, 2 = never; 0 = drawn
+	forceReboot int
+	pdb         kvdb.Backend
+	pn          int
 	t    *testing.T
 	w    *bufio.Writer
 	rng  *rand.Rand
@@ -1164,7 +1208,7 @@ func (x *c12) arbCase(c *c12Case, scen int, fcErrKind int, closeKind string, scr
 	run := &c12Run{x: x, c: c, a: a, boot: boot, stale: stale}
 	defer func() {
 		x.pf("END")
-		_ = a.arb.Stop()
+		_ = run.a.arb.Stop()
 	}()
 
 	hs := script
@@ -1188,6 +1232,20 @@ func (x *c12) arbCase(c *c12Case, scen int, fcErrKind int, closeKind string, scr
 		closeKind = "remote"
 	}
 	ev := x.mkEv(c, closeKind, 0, x.rng.Intn(4) != 0)
+	// the close event is not delivered: the handler's persistence happens, the
+	// node stops right after MarkChannelClosed, and the arbitrator of the now
+	// pending-close channel is started again (drawn before anything runs)
+	rebootDen := 32
+	if x.tier == "thorough" {
+		rebootDen = 40
+	}
+	reboot := closeKind != "none" && x.rng.Intn(rebootDen) == 0
+	rebootUpK := x.rng.Intn(3)
+	if x.forceReboot == 1 {
+		reboot = closeKind != "none"
+	} else if x.forceReboot == 2 {
+		reboot = false
+	}
 
 	a.setUptime(c.grace, x.rng)
 	run.start(hs[0])
@@ -1236,7 +1294,11 @@ func (x *c12) arbCase(c *c12Case, scen int, fcErrKind int, closeKind string, scr
 	}
 	ev.evh = last + evhOff
 	bh := ev.evh + bhOff
-	run.block(bh, ev)
+	if reboot {
+		run.reboot(bh, ev, rebootUpK)
+	} else {
+		run.block(bh, ev)
+	}
 	if run.done {
 		return
 	}
@@ -1815,6 +1877,7 @@ func TestVerifC12(t *testing.T) {
 		nUnit, nArb, nWatch, maxH = 25000, 450000, 4000, 14
 	}
 
+	x.forceReboot = 2
 	for _, e := range c12Corpus() {
 		x.arbCase(e.c, e.scen, e.fcErr, e.close, e.hs)
 	}
@@ -1833,6 +1896,21 @@ func TestVerifC12(t *testing.T) {
 			x.arbCase(rs, 0, 0, "none", []uint32{600, 694, 695, 696})
 		}
 		x.forceBoot = ""
+	}
+	// the same corpus, the close arriving as a restart of the pending-close channel
+	x.forceReboot = 1
+	for _, e := range c12Corpus() {
+		if e.close != "none" {
+			x.arbCase(e.c, e.scen, e.fcErr, e.close, e.hs)
+		}
+	}
+	x.forceReboot = 0
+	nCodec := 120
+	if tier == "thorough" {
+		nCodec = 3000
+	}
+	for i := 0; i < nCodec; i++ {
+		x.codecCase()
 	}
 	for _, e := range c12Corpus()[:3] {
 		x.unitCase(e.c, maxH)
@@ -1857,4 +1935,5 @@ func TestVerifC12(t *testing.T) {
 		hs := c.heights(x.rng, 2+x.rng.Intn(5))
 		x.arbCase(c, scen, fcErr, closeKinds[x.rng.Intn(len(closeKinds))], hs)
 	}
+	t.Logf("c12: time spent in reboot ops: %v", c12RebootDur)
 }
